@@ -250,6 +250,7 @@ void inst(){
             rep.ok("S5-by-name", key, "only named access")
     rep.floor("obligations:S5", 12)
     grey_thresholds(rep, d["functions"])
+    fraction_of_unreduced_hue(rep, d["functions"])
 
 
 # ---------------------------------------------------------------------------------------------
@@ -643,6 +644,38 @@ def transfer_pairs(rep, fns):
         except NoForm as e:
             rep.incon("S8-transfer-pair", key, "unrecognised shape: %s" % e)
     rep.floor("obligations:S8", 2)
+
+
+def fraction_of_unreduced_hue(rep, fns):
+    """S13: hue is periodic through the sector index only. The fraction inside a sector is h - floor(h); reducing the floor modulo 6 *before* the subtraction makes
+    the fraction 6 at hue 1 (h == 6): t = v(1 + 5s) leaves [0,1] and the colour at hue 1 is no longer the colour at hue 0."""
+    rep.rule("S13 hsv -> rgb: the sector fraction is h - floor(h) with the floor as computed (every assignment that reaches the subtraction is a plain floor of h); "
+             "the reduction modulo 6 is applied to the sector index afterwards. Witness for a violation: hue 1, h = 6, index 0, fraction 6")
+    seen = False
+    for f in fns:
+        if f.get("body") is None or not re.search(r"hsv_color_space::hue_t.*red_t", f.get("cls", "") + f.get("full", "")) or not f["name"].endswith("operator()"):
+            continue
+        eff = [(x.get("line") or 0, k, x) for k, x, _ in R.effects(f["body"])]
+        hv = [re.match(r"\((\w+) = get_color\(\w+,hue_t\{\}\)\)$", k) for _, k, _ in eff]
+        hv = [m.group(1) for m in hv if m]
+        if not hv:
+            continue
+        subs = [(ln, k, re.search(r"= \(%s(?:\.operator float\(\))? - (\w+)\)\)$" % re.escape(hv[0]), k)) for ln, k, x in eff]
+        subs = [(ln, k, m.group(1)) for ln, k, m in subs if m]
+        if not subs or seen:
+            continue
+        seen = True
+        rep.count("obligations:S13")
+        ln, k, sub = subs[0]
+        reach = [kk for l2, kk, x2 in eff if l2 < ln and re.match(r"\(%s (%%|[-+*/])?= " % re.escape(sub), kk)]
+        key = "S13:hsv->rgb:sector fraction"
+        bad = [kk for kk in reach if "%" in kk] or ([] if reach and all("floor(" in kk for kk in reach) else ["no plain floor(h) reaches the subtraction: %s" % reach])
+        if bad:
+            rep.violation("S13-fraction", key, R.fn_where(f), {"fraction": k, "definitions of the subtrahend that reach it": reach,
+                          "example": "hsv(1, 1, 1): h = 6, index 6 % 6 = 0, fraction 6 - 0 = 6, t = v*(1 - s*(1 - 6)) = 6: rgb8 (255, 250, 0) instead of (255, 0, 0)"})
+        else:
+            rep.ok("S13-fraction", key, {"fraction": k, "floor": reach})
+    rep.floor("obligations:S13", 1)
 
 
 def grey_thresholds(rep, fns):
